@@ -1,6 +1,6 @@
 import Proofs.C14.Inst2
-/-! C14 proofs, part B3: `GetTokenRangesForInstance` ranges = ownership (fixed walk always;
-current sentinel walk unless the layout is `bad`). -/
+/-! C14 proofs, part B3: `GetTokenRangesForInstance` ranges = ownership (the code always;
+the pre-fix sentinel walk unless the layout is `bad`). -/
 namespace PfC14
 open C14 Ring
 
@@ -42,16 +42,16 @@ theorem descAbove_of_sasc (f : Nat) (rest : List (Nat × Bool)) (hs : SAsc (f ::
     exact List.pairwise_map.mp this
   refine ⟨List.pairwise_reverse.mpr h2, fun p hp => h1 p (List.mem_reverse.mp hp)⟩
 
-theorem instRangesOfF_eq (f : Nat) (fm : Bool) (rest : List (Nat × Bool)) :
-    instRangesOfF ((f, fm) :: rest) = sortNat (outF (f, fm) (if fm then some maxU32 else none) rest.reverse) := by
-  simp [instRangesOfF, outF]
+theorem instRangesOfCur_eq (f : Nat) (fm : Bool) (rest : List (Nat × Bool)) :
+    instRangesOf ((f, fm) :: rest) = sortNat (outF (f, fm) (if fm then some maxU32 else none) rest.reverse) := by
+  simp [instRangesOf, outF]
 
-/-- **fixed walk**: reported ranges contain `k` iff the first token after `k` is the instance's. -/
-theorem instF_exact (zt : List (Nat × Bool)) (hs : SAsc (zt.map (·.1))) (hb : ∀ p ∈ zt, p.1 ≤ maxU32)
+/-- **the walk of the code**: reported ranges contain `k` iff the first token after `k` is the instance's. -/
+theorem inst_exact (zt : List (Nat × Bool)) (hs : SAsc (zt.map (·.1))) (hb : ∀ p ∈ zt, p.1 ≤ maxU32)
     (k : Nat) (hk : k ≤ maxU32) :
-    includesKey (instRangesOfF zt) k = true ↔ ∃ t, IsSucc (zt.map (·.1)) k t ∧ (t, true) ∈ zt := by
+    includesKey (instRangesOf zt) k = true ↔ ∃ t, IsSucc (zt.map (·.1)) k t ∧ (t, true) ∈ zt := by
   cases zt with
-  | nil => simp [instRangesOfF, includesKey, IsSucc]
+  | nil => simp [instRangesOf, includesKey, IsSucc]
   | cons first rest =>
     obtain ⟨f, fm⟩ := first
     have hd := descAbove_of_sasc f rest (by simpa using hs)
@@ -68,7 +68,7 @@ theorem instF_exact (zt : List (Nat × Bool)) (hs : SAsc (zt.map (·.1))) (hb : 
       · exact hb (topOf f rest.reverse, m) (List.mem_cons_of_mem _ (List.mem_reverse.mp h))
     have ⟨hlen, hdesc, _⟩ := outF_shape f fm rest.reverse _ hd hst
     have ⟨hsort, hasc⟩ := sortNat_desc _ hdesc
-    rw [instRangesOfF_eq, hsort, includes_iff_covers _ _ hasc (by simpa using hlen), covers_reverse _ _ hlen,
+    rw [instRangesOfCur_eq, hsort, includes_iff_covers _ _ hasc (by simpa using hlen), covers_reverse _ _ hlen,
       outF_owned f fm rest.reverse hd htop k hk]
     have hT : ∀ u, u ∈ toksOf f rest.reverse ↔ u ∈ ((f, fm) :: rest).map (·.1) := by
       intro u; simp [toksOf]
@@ -80,22 +80,22 @@ theorem instF_exact (zt : List (Nat × Bool)) (hs : SAsc (zt.map (·.1))) (hb : 
 
 /-! ### when does the `rangeEnd == 0` sentinel bite? -/
 
-theorem walkLoopF_append : ∀ (P Q : List (Nat × Bool)) (st : Option Nat),
-    walkLoopF st (P ++ Q) =
-      ((walkLoopF (walkLoopF st P).1 Q).1, (walkLoopF st P).2 ++ (walkLoopF (walkLoopF st P).1 Q).2)
-  | [], Q, st => by cases st <;> simp [walkLoopF]
+theorem walkLoopCur_append : ∀ (P Q : List (Nat × Bool)) (st : Option Nat),
+    walkLoop st (P ++ Q) =
+      ((walkLoop (walkLoop st P).1 Q).1, (walkLoop st P).2 ++ (walkLoop (walkLoop st P).1 Q).2)
+  | [], Q, st => by cases st <;> simp [walkLoop]
   | (t, m) :: P, Q, none => by
-    cases m <;> simp [walkLoopF, walkLoopF_append P Q]
+    cases m <;> simp [walkLoop, walkLoopCur_append P Q]
   | (t, m) :: P, Q, some re => by
-    cases m <;> simp [walkLoopF, walkLoopF_append P Q]
+    cases m <;> simp [walkLoop, walkLoopCur_append P Q]
 
 theorem safe_append : ∀ (P Q : List (Nat × Bool)) (st : Option Nat),
-    Safe st (P ++ Q) ↔ (Safe st P ∧ Safe (walkLoopF st P).1 Q)
-  | [], Q, st => by cases st <;> simp [Safe, walkLoopF]
+    Safe st (P ++ Q) ↔ (Safe st P ∧ Safe (walkLoop st P).1 Q)
+  | [], Q, st => by cases st <;> simp [Safe, walkLoop]
   | (t, m) :: P, Q, none => by
-    cases m <;> simp [Safe, walkLoopF, safe_append P Q, and_assoc]
+    cases m <;> simp [Safe, walkLoop, safe_append P Q, and_assoc]
   | (t, m) :: P, Q, some re => by
-    cases m <;> simp [Safe, walkLoopF, safe_append P Q]
+    cases m <;> simp [Safe, walkLoop, safe_append P Q]
 
 theorem safe_of_ge2 : ∀ (D : List (Nat × Bool)) (st : Option Nat), (∀ p ∈ D, 2 ≤ p.1) → Safe st D
   | [], st, _ => by cases st <;> simp [Safe]
@@ -107,9 +107,9 @@ theorem safe_of_ge2 : ∀ (D : List (Nat × Bool)) (st : Option Nat), (∀ p ∈
 
 /-- after a token of another instance the walk is "looking for an end", after an own token it has one. -/
 theorem state_after_last (P : List (Nat × Bool)) (t : Nat) (m : Bool) (st : Option Nat) :
-    (walkLoopF st (P ++ [(t, m)])).1 = none ↔ m = false := by
-  rw [walkLoopF_append]
-  cases hst : (walkLoopF st P).1 <;> cases m <;> simp [walkLoopF]
+    (walkLoop st (P ++ [(t, m)])).1 = none ↔ m = false := by
+  rw [walkLoopCur_append]
+  cases hst : (walkLoop st P).1 <;> cases m <;> simp [walkLoop]
 
 /-- the layouts on which the sentinel collides with a real range end: the zone holds token 0, the
 instance owns token 1, and the token following 1 on the circle belongs to another instance. -/
@@ -136,7 +136,7 @@ theorem safe_of_not_bad (f : Nat) (fm : Bool) (rest : List (Nat × Bool))
     simp only [List.reverse_cons]
     rw [safe_append]
     refine ⟨safe_of_ge2 _ _ (fun p hp => hrest' p (List.mem_reverse.mp hp)), ?_⟩
-    cases hst : (walkLoopF (if fm then some maxU32 else none) rest'.reverse).1 with
+    cases hst : (walkLoop (if fm then some maxU32 else none) rest'.reverse).1 with
     | some re => cases m1 <;> simp [Safe]
     | none =>
       cases m1 with
@@ -152,7 +152,7 @@ theorem safe_of_not_bad (f : Nat) (fm : Bool) (rest : List (Nat × Bool))
         | nil =>
           cases fm
           · simp [bad] at hbad
-          · simp [walkLoopF] at hst
+          · simp [walkLoop] at hst
         | cons p2 rest'' =>
           obtain ⟨t2, m2⟩ := p2
           simp only [List.reverse_cons] at hst
@@ -160,8 +160,8 @@ theorem safe_of_not_bad (f : Nat) (fm : Bool) (rest : List (Nat × Bool))
           subst this
           simp [bad] at hbad
 
-theorem instRangesOf_eq_F (zt : List (Nat × Bool)) (hs : SAsc (zt.map (·.1))) (hbad : bad zt = false) :
-    instRangesOf zt = instRangesOfF zt := by
+theorem instRangesOfOld_eq (zt : List (Nat × Bool)) (hs : SAsc (zt.map (·.1))) (hbad : bad zt = false) :
+    instRangesOfOld zt = instRangesOf zt := by
   cases zt with
   | nil => rfl
   | cons first rest =>
@@ -169,19 +169,19 @@ theorem instRangesOf_eq_F (zt : List (Nat × Bool)) (hs : SAsc (zt.map (·.1))) 
     have hsafe := safe_of_not_bad f fm rest (by simpa using hs) hbad
     have hst0 : (if fm then some maxU32 else none : Option Nat) ≠ some 0 := by
       cases fm <;> simp [maxU32]
-    have ⟨h1, h2⟩ := walkLoop_eq_F rest.reverse _ hst0 hsafe
+    have ⟨h1, h2⟩ := walkLoopOld_eq rest.reverse _ hst0 hsafe
     have henc : enc (if fm then some maxU32 else none) = if fm then maxU32 else 0 := by
       cases fm <;> rfl
-    simp only [instRangesOf, instRangesOfF]
+    simp only [instRangesOfOld, instRangesOf]
     rw [← henc, h1]
     simp only
-    rw [walkFinish_eq_F _ _ h2]
+    rw [walkFinishOld_eq _ _ h2]
 
-/-- **current code**: exact unless the layout is `bad`. -/
-theorem inst_exact_of_not_bad (zt : List (Nat × Bool)) (hs : SAsc (zt.map (·.1))) (hb : ∀ p ∈ zt, p.1 ≤ maxU32)
+/-- **pre-fix walk**: exact unless the layout is `bad`. -/
+theorem instOld_exact_of_not_bad (zt : List (Nat × Bool)) (hs : SAsc (zt.map (·.1))) (hb : ∀ p ∈ zt, p.1 ≤ maxU32)
     (hbad : bad zt = false) (k : Nat) (hk : k ≤ maxU32) :
-    includesKey (instRangesOf zt) k = true ↔ ∃ t, IsSucc (zt.map (·.1)) k t ∧ (t, true) ∈ zt := by
-  rw [instRangesOf_eq_F zt hs hbad]
-  exact instF_exact zt hs hb k hk
+    includesKey (instRangesOfOld zt) k = true ↔ ∃ t, IsSucc (zt.map (·.1)) k t ∧ (t, true) ∈ zt := by
+  rw [instRangesOfOld_eq zt hs hbad]
+  exact inst_exact zt hs hb k hk
 
 end PfC14
